@@ -335,7 +335,8 @@ class FullResolutionFetcher(object):
         """
 
         subscript = verify_subscript(subscript, self.data_size)
-        return self.reader.read(*subscript, index=self.index)
+        # NB: a block of a single row or column must keep both dimensions
+        return self.reader.read(*subscript, index=self.index, squeeze=False)
 
 
 class OrthorectificationIterator(object):
